@@ -39,7 +39,6 @@ UNITS["v_closure_runner"] = dict(
              orig_sig="fn run_key_value( &self, ctx: &mut Context, key: &str, value: &Value, ) -> Result<Value, ExpressionError>",
              wrap=("impl Runner {", "}"),
              sig="pub fn run_key_value(&self, ctx: &mut Context, key: &Str, value: &Value) -> (r: Result<Value, ExpressionError>)",
-             requires=["distinct_params(*self)"],
              ensures=runner_ensures("run_key_value", 2, True),
              rewrites=[RW_RUNNER,
                        dict(**{"from": "cloned_key.into()", "to": "cloned_key.into_value()", "why": "From<String> for Value: opaque conversion"})],
@@ -48,7 +47,6 @@ UNITS["v_closure_runner"] = dict(
              orig_sig="fn run_index_value( &self, ctx: &mut Context, index: usize, value: &Value, ) -> Result<Value, ExpressionError>",
              wrap=("impl Runner {", "}"),
              sig="pub fn run_index_value(&self, ctx: &mut Context, index: usize, value: &Value) -> (r: Result<Value, ExpressionError>)",
-             requires=["distinct_params(*self)"],
              ensures=runner_ensures("run_index_value", 2, True),
              rewrites=[RW_RUNNER,
                        dict(**{"from": "index.into()", "to": "usize_into_value(index)", "why": "From<usize> for Value: opaque conversion"})],
